@@ -47,12 +47,16 @@ class TipperSurvey(FEMSurvey, AirborneEMSurvey):
         base_stations: TipperBaseStations | None = None,
         **kwargs,
     ):
-        self._base_stations = base_stations
+        self._base_stations = None
 
         super().__init__(
             object_type,
             **kwargs,
         )
+
+        if base_stations is not None:
+            # go through the setter: it validates and records the link on both entities
+            self.base_stations = base_stations
 
     @property
     def base_stations(self) -> TipperBaseStations | None:
